@@ -87,3 +87,57 @@ PLANS['C03'] = {
     'note': 'trusted: the Python reference codecs and the errata resolutions; the C01 generators for reach',
     'technique': 'offline monitor: independent spec decoder over recorded serializer outputs',
 }
+
+
+def _pool(fn, argslist):
+    import concurrent.futures as cf
+    with cf.ProcessPoolExecutor(max_workers=min(core.NCPU, max(1, len(argslist)))) as ex:
+        return list(ex.map(fn, argslist))
+
+
+def _c04(m, tier, seed, rundir, extra):
+    import sys
+    sys.path.insert(0, os.path.join(core.VERIF, 'lib'))
+    from monitors import c04
+    count = int(extra.get('count', 600 if tier == 'quick' else 40000))
+    res = core.run_sharded('foreigngen', ['--seed', seed, '--count', count, '--fmt', 'bin'], SH, rundir,
+                           per_shard_args=lambda i: ['--cases', os.path.join(rundir, f'logical-{i}.jsonl')])
+    for rc, summ, err in res:
+        if summ is None:
+            m.inconclusive.append(f'foreigngen exited {rc}: {err[-300:]}')
+    jobs = [(os.path.join(rundir, f'logical-{i}.jsonl'), os.path.join(rundir, f'files-{i}.jsonl'), seed) for i in range(SH)]
+    made = sum(_pool(c04.run_make, jobs))
+    # exhaustive widening sweep over every Int64/Float64 descriptor of the database
+    wl = os.path.join(rundir, 'widen.json')
+    core.run_vh(['widenlist', '--cases', wl], os.path.join(rundir, 'widenlist-out.json'))
+    made += c04.make_widen_files(wl, os.path.join(rundir, f'files-{SH}.jsonl'), seed)
+    import concurrent.futures as cf
+    outs = []
+    with cf.ThreadPoolExecutor(max_workers=core.NCPU) as ex:
+        futs = [ex.submit(core.run_vh, ['readcmp', '--prop', 'C04', '--in', os.path.join(rundir, f'files-{i}.jsonl')],
+                          os.path.join(rundir, f'readcmp-{i}.json')) for i in range(SH + 1)]
+        outs = [f.result() for f in futs]
+    m.add_results(outs, 'readcmp')
+    m.extra['files_generated_by_reference_encoder'] = made
+    for i in range(SH + 1):
+        for f in (f'logical-{i}.jsonl', f'files-{i}.jsonl'):
+            p = os.path.join(rundir, f)
+            if os.path.exists(p):
+                os.remove(p)
+
+
+PLANS['C04'] = {
+    'level': 'exploration',
+    'rule': ('logical DOMs (generated, canonical form) are encoded by refbin.py, an independent encoder written from docs/binary.md, which randomises '
+             'per-chunk compression, chunk order, class ids, referent numbering, PRNT row order, META/unknown chunks, service-format INST chunks, '
+             'CFrame id vs full matrix; plus PROP chunks without type byte / with unknown type ids, narrower numerics for Int64/Float64 properties, '
+             'and one file per Int64/Float64 descriptor of the database (exhaustive); rbx_binary::from_reader must return exactly the DOM described; '
+             'non-trivial = >=2 instances; distinct = hash of the file'),
+    'floor': {'quick': 1000, 'thorough': 50000},
+    'assumptions': ['refbin.py encoder + errata E1/E2 resolutions (DESIGN.md 2.4)', 'harness oracle for the logical DOMs'],
+    'run': _c04,
+    'claim': ('held on N foreign files: files produced by an independent spec encoder with every documented freedom varied were decoded to exactly the DOM they describe; '
+              'documented skip rules and exact widening checked, the latter on every Int64/Float64 descriptor of the database'),
+    'note': 'trusted: refbin.py (validated against the document examples and 4 Studio files), errata resolutions; the reader is only shown files the reference encoder can produce',
+    'technique': 'independent spec encoder -> real reader -> dump comparison (runtime differential monitor)',
+}
